@@ -317,6 +317,9 @@ def handleLirRun (hexText : String) (tuples : List (List String)) : String :=
                 | none => "none"
               -- the code-generation layer (Props/C01Cg): the emitted code of the model's LIR, run on the SSA encodings
               let cres : String :=
+                -- hypothesis of `cg_preserves_partial` / `mir_to_code_partial`: no call assigns the result of a
+                -- function that returns nothing (checked on the LIR of every program)
+                if !C01Cg.callsOk L || !C01Cg.namesOk P then "calls-not-ok" else
                 match C01Cg.cgProg L, vs'.mapM C01MirRun.cvOf with
                 | some C, some cs =>
                   match C01Cg.cRun C 4000 "main" cs with
